@@ -14,7 +14,7 @@ RULE = ("Engine S histories (as C01) biased to several simultaneously outstandin
 ASSUMPTIONS = ["items inside are read from the public lists items / ready_items",
                "acting as a process by setting env._active_proc"]
 
-WEIGHTS = {"rp": 6, "rg": 7, "put": 7, "get": 5, "cp": 1, "cg": 3, "settle": 1, "adv": 7}
+WEIGHTS = {"rp": 6, "rg": 7, "put": 7, "get": 5, "cp": 1, "cg": 3, "settle": 1, "adv": 7, "peek": 1}
 CLASSES = gen_store.ALL_PLAIN + gen_store.BELTS
 
 
